@@ -51,6 +51,8 @@ class Profile:
     free_p_true: float = 0.7
     max_R: int = 2
     allow_period: bool = True
+    p_near_tie: float = 0.0
+    min_cont_states: int = 0
     max_RC: int = 2
     extra: dict = field(default_factory=dict)
 
@@ -178,7 +180,7 @@ def model_specs(draw, prof: Profile = Profile()):
     Tp = T if prof.allow_period else 1  # period-dependent features only if allowed
     fully_discrete = d.bool(prof.fully_discrete) if prof.fully_discrete else False
     nds = d.int(0, prof.max_disc_states)
-    ncs = 0 if fully_discrete else d.int(0, prof.max_cont_states)
+    ncs = 0 if fully_discrete else d.int(min(prof.min_cont_states, prof.max_cont_states), prof.max_cont_states)
     ndc = d.int(0, prof.max_disc_choices)
     ncc = 0 if fully_discrete else d.int(0, prof.max_cont_choices)
     if nds + ncs == 0:
@@ -546,6 +548,27 @@ def model_specs(draw, prof: Profile = Profile()):
             e = f"xp.clip({e}, {lo}, {hi})"
         functions[f"next_{w}"] = dict(args=list(dict.fromkeys(args)), body=e)
 
+    # near ties: a discrete choice whose only effect is a tiny utility difference, so that two
+    # alternatives differ by far less than any sensible tolerance without being equal
+    if prof.p_near_tie and d.bool(prof.p_near_tie):
+        n = d.int(2, 3)
+        eps = d.choice([1e-6, 1e-7, 3e-9])
+        tname = f"TAB{b.ntab}"
+        b.ntab += 1
+        b.consts[tname] = d.table_int((n,), 7) - 3
+        u = functions["utility"]
+        u["args"] = u["args"] + ["xtie"]
+        u["body"] = f"{u['body']} + {eps!r} * {tname}[xtie]"
+        fl = [f for f in functions if f.endswith("_filter")]
+        if fl and d.bool(0.6):
+            f = functions[d.choice(fl)]
+            f["args"] = f["args"] + ["xtie"]
+            f["body"] = f"({f['body']}) & (xtie >= 0)"
+        keys = list(choices)
+        pos = d.int(0, len(keys))
+        keys.insert(pos, "xtie")
+        choices["xtie"] = ("disc", n)
+        choices = {k: choices[k] for k in keys}
     for n in functions:
         params.setdefault(n, {})
     order = d.perm(list(functions))
